@@ -18,7 +18,7 @@ use std::sync::Arc;
 use vcore::Report;
 
 fn base(mode: Mode, split: &[usize], ps: PsKind) -> Case {
-    Case { mode, idempotent: false, split: split.to_vec(), ps, faults: Vec::new(), consumer: Consumer::Eager, nodes: pg::NODES, cached_metadata: false, metadata_anyway_on: None, shape: RowShape::Nulls(0) }
+    Case { mode, idempotent: false, split: split.to_vec(), ps, faults: Vec::new(), consumer: Consumer::Eager, nodes: pg::NODES, cached_metadata: false, metadata_anyway_on: None, shape: RowShape::Nulls(0), extras: None }
 }
 
 /// paging-state alphabets of the quick tier (thorough adds `mixed`); the rotation below walks this list
@@ -165,6 +165,23 @@ fn gen_big(with_faults: bool) -> Vec<Case> {
     v
 }
 
+/// One page (every position, first and later) whose frame carries {warnings, custom payload, both, both + tracing id}.
+fn gen_extras(nmax: usize) -> Vec<Case> {
+    let mut v = Vec::new();
+    for n in 0..=nmax {
+        for s in pg::splits(n) {
+            for p in 0..s.len() {
+                for kind in 1..=4u8 {
+                    for mode in Mode::ALL {
+                        v.push(Case { extras: Some((p, kind)), ..base(mode, &s, PsKind::OneByte) });
+                    }
+                }
+            }
+        }
+    }
+    v
+}
+
 fn consumers_for(split: &[usize]) -> Vec<Consumer> {
     let n: usize = split.iter().sum();
     let mut v = Vec::new();
@@ -274,6 +291,7 @@ fn main() {
             let nmax = nmax_arg.unwrap_or(if thorough { 6 } else { 5 });
             let mut cases = gen_split(nmax, thorough);
             cases.extend(gen_big(false));
+            cases.extend(gen_extras(if thorough { 3 } else { 2 }));
             (cases, json!({"rows_max": nmax, "faults_per_run": 0}))
         }
         "fault" => {
